@@ -12,6 +12,7 @@ from __future__ import annotations
 
 import enum
 import json
+import os
 
 from .. import core
 from ..l3 import L3Session, show_real
@@ -171,10 +172,46 @@ def _valid(b):
         return False
 
 
+def stuck_probe(ctx):
+    """long digit / separator runs handed to every readable function in a child process with a time limit (harness/stuck_probe.py)"""
+    import subprocess
+    import sys
+    import time
+    p = subprocess.Popen([sys.executable, "-m", "harness.stuck_probe"], cwd=os.path.dirname(os.path.dirname(os.path.dirname(os.path.abspath(__file__)))),
+                         stdout=subprocess.PIPE, stderr=subprocess.PIPE, text=True, env={**os.environ, "YNCA_REPO": core.REPO, "PYTHONPATH": core.REPO})
+    try:
+        out, err = p.communicate(timeout=240 if ctx.tier == "thorough" else 150)
+        timed_out = False
+    except subprocess.TimeoutExpired:
+        p.kill()
+        out, err = p.communicate()
+        timed_out = True
+    lines = out.splitlines()
+    n = sum(1 for l in lines if l.startswith("BEGIN"))
+    ctx.cov["stuck_probe_deliveries"] = n
+    for i, l in enumerate(lines):
+        if l.startswith("BEGIN"):
+            ctx.case(("stuck", l))
+            nxt = lines[i + 1] if i + 1 < len(lines) else None
+            if nxt is not None and nxt.startswith("END raised"):
+                _, py, sid, fn, hx = l.split(" ")
+                ctx.violation(f"@{sid}:{fn}={core.unhx(hx)[:60]!r}... -> the message handler {nxt[4:]} (in the reader thread this ends the connection)",
+                              {"path": "stuck-probe", "class": py, "subunit": sid, "function": fn, "text": core.unhx(hx)}, {"kind": "raises", "path": "stuck-probe"})
+    if timed_out:
+        last = [l for l in lines if l.startswith("BEGIN")][-1:] or ["BEGIN ? ? ? -"]
+        _, py, sid, fn, hx = last[0].split(" ")
+        ctx.violation(f"@{sid}:{fn}={core.unhx(hx)[:60]!r} ({len(core.unhx(hx))} characters): the message handler was still busy with this one line when the time limit expired "
+                      f"({n} deliveries normally take about a second): the reader thread is stalled, no later line is processed, nothing is raised",
+                      {"path": "stuck-probe", "class": py, "subunit": sid, "function": fn, "text": core.unhx(hx)}, {"kind": "stalled", "path": "stuck-probe"})
+    elif "DONE" not in lines:
+        raise RuntimeError(f"stuck probe ended without finishing: {err[-800:]}")
+
+
 def run(ctx: core.Ctx):
     ctx.lean_stage()
     T = core.tables()
     thorough = ctx.tier == "thorough"
+    stuck_probe(ctx)
     dis = typed_attack(ctx, T, ctx.rng, thorough)
     nb = byte_attack(ctx, T, ctx.rng, thorough)
     # user-declared functions: a converter may signal "cannot decode" with any exception (a dict lookup raises KeyError, an index raises
@@ -246,6 +283,20 @@ def replay(ctx, path):
     if rp.get("path") == "b2":
         from .. import b2check
         return b2check.replay_b2(rp, ["C10", "C09"])
+    if rp.get("path") == "stuck-probe":
+        # deliver the one line to a fresh object in a child process with a time limit
+        import subprocess
+        import sys
+        code = ("import sys; sys.path.insert(0, %r); from harness import core; from harness.realobj import StubConnection, subunit_class; "
+                "from ynca.connection import YncaProtocolStatus as St; c = StubConnection(); o = subunit_class(%r)(c); c.deliver(St.OK, %r, %r, %r); print('handled')"
+                % (os.path.dirname(os.path.dirname(os.path.dirname(os.path.abspath(__file__)))), rp["class"], rp["subunit"], rp["function"], rp["text"]))
+        try:
+            r = subprocess.run([sys.executable, "-c", code], timeout=30, capture_output=True, text=True, env={**os.environ, "YNCA_REPO": core.REPO, "PYTHONPATH": core.REPO})
+            print("impl :", (r.stdout.strip() or r.stderr.strip()[-300:]))
+            return 0 if "handled" in r.stdout else 1
+        except subprocess.TimeoutExpired:
+            print("impl : still busy with this one line after 30 s (the reader thread would be stalled)")
+            return 1
     if rp.get("path") == "typed":
         S = L3Session()
         i = S.new(rp["class"])
